@@ -373,5 +373,5 @@ def phases(tier):
     quick = tier == 'quick'
     return [
         Phase('lattice-and-selections', check_case, gen=gen_lattice(2 if quick else 3), exhaustive=True),
-        Phase('single-model-linker', check_single, strategy=strat_single, examples=1500 if quick else 30000),
+        Phase('single-model-linker', check_single, strategy=strat_single, examples=1500 if quick else 100000),
     ]
